@@ -798,4 +798,197 @@ theorem tagEntryU_raw (L : Layer) (hc : Consec 0 L.abs2index) (v ε : ℝ) (tvo 
           rw [hvp, ← hMV, ← hMCc] at this
           exact this
 
+
+/-! ### start tags of the unambiguous layer -/
+
+theorem normalize_drop (idx : AList Abs (ℕ × ℕ × AList DP ℕ)) (x : List ℝ) (hc : Consec 0 idx) (n : ℕ)
+    (hn : (idx.map (fun e => e.2.2.1)).sum ≤ n) : (normalize idx x).drop n = x.drop n := by
+  apply List.ext_getElem?
+  intro j
+  simp only [List.getElem?_drop]
+  exact normalize_tail idx x hc (n + j) (by omega)
+
+/-- the start tags are read after the last slice: `__normalize__` does not touch them -/
+theorem startTagsU_normalize (L : Layer) (starts : List NT) (x : List ℝ) (hc : Consec 0 L.abs2index)
+    (hn : (L.abs2index.map (fun e => e.2.2.1)).sum ≤ L.outputSize - L.allStartsAbs.length) :
+    startTagsU L starts (normalize L.abs2index x) = startTagsU L starts x := by
+  unfold startTagsU
+  rw [normalize_drop L.abs2index x hc _ hn]
+
+/-- `if S in grammar.starts: start_tags[S] = z[i]` -/
+def startInner (starts : List NT) (zj : Option ℝ) (acc : Option (AList NT ℝ)) (S : NT) : Option (AList NT ℝ) :=
+  match acc with
+  | none => none
+  | some d => if S ∈ starts then
+      match zj with
+      | none => none
+      | some t => some (d.insert S t)
+    else some d
+
+/-- `for S in abs2real[abs]: …` -/
+def startOuter (L : Layer) (starts : List NT) (z : List ℝ) (acc : Option (AList NT ℝ)) (ai : Abs × ℕ) :
+    Option (AList NT ℝ) :=
+  match acc with
+  | none => none
+  | some d => ((L.abs2real.lookup ai.1).getD []).foldl (startInner starts z[ai.2]?) (some d)
+
+/-- the table `start_tags` before its normalisation (u 249-255), `z` = tail of the tensor -/
+def startRawU (L : Layer) (starts : List NT) (z : List ℝ) : Option (AList NT ℝ) :=
+  L.allStartsAbs.zipIdx.foldl (startOuter L starts z) (some [])
+
+theorem startTagsU_eq (L : Layer) (starts : List NT) (x : List ℝ) :
+    startTagsU L starts x =
+      match startRawU L starts (x.drop (L.outputSize - L.allStartsAbs.length)) with
+      | none => none
+      | some d =>
+        some (d.map (fun e => (e.1, e.2 + Real.log (1 / (d.map (fun e => Real.exp e.2)).sum)))) := by
+  unfold startTagsU startRawU
+  simp only [sumL_eq, log_real, ofNat_real, Nat.cast_one, exp_real]
+  unfold startOuter startInner
+  congr! <;> (funext _ o _ _; cases o <;> rfl)
+
+theorem foldl_none {β γ : Type} (f : Option β → γ → Option β) (hf : ∀ x, f none x = none) (l : List γ) :
+    l.foldl f none = none := by
+  induction l with
+  | nil => rfl
+  | cons a r ih => simp [List.foldl_cons, hf, ih]
+
+/-- where every entry of the raw start table comes from -/
+def StartFrom (L : Layer) (starts : List NT) (z : List ℝ) (d : AList NT ℝ) : Prop :=
+  ∀ (S : NT) (t : ℝ), AList.lookup S d = some t →
+    S ∈ starts ∧ ∃ (j : ℕ) (a : Abs), L.allStartsAbs[j]? = some a ∧ S ∈ (L.abs2real.lookup a).getD [] ∧ z[j]? = some t
+
+theorem startRawU_inner (L : Layer) (starts : List NT) (z : List ℝ) (a : Abs) (j : ℕ)
+    (ha : L.allStartsAbs[j]? = some a) :
+    ∀ (Ss : List NT) (d d' : AList NT ℝ), (∀ S ∈ Ss, S ∈ (L.abs2real.lookup a).getD []) →
+      StartFrom L starts z d →
+      Ss.foldl (startInner starts z[j]?) (some d) = some d' → StartFrom L starts z d' := by
+  intro Ss
+  induction Ss with
+  | nil => intro d d' _ hd h; simp at h; subst h; exact hd
+  | cons S r ih =>
+    intro d d' hS hd h
+    simp only [List.foldl_cons] at h
+    by_cases hst : S ∈ starts
+    · cases hz : z[j]? with
+      | none =>
+        have : startInner starts z[j]? (some d) S = none := by simp [startInner, hst, hz]
+        rw [this, foldl_none _ (by intro x; rfl)] at h
+        cases h
+      | some t =>
+        have : startInner starts z[j]? (some d) S = some (d.insert S t) := by simp [startInner, hst, hz]
+        rw [this] at h
+        refine ih _ d' (fun S' hS' => hS S' (by simp [hS'])) ?_ h
+        intro S' t' hl
+        rw [AList.lookup_insert] at hl
+        by_cases hSS : S' = S
+        · subst hSS
+          simp only [if_true, Option.some.injEq] at hl
+          subst hl
+          exact ⟨hst, j, a, ha, hS S' (by simp), hz⟩
+        · simp only [hSS, if_false] at hl
+          exact hd S' t' hl
+    · have : startInner starts z[j]? (some d) S = some d := by simp [startInner, hst]
+      rw [this] at h
+      exact ih d d' (fun S' hS' => hS S' (by simp [hS'])) hd h
+
+theorem startRawU_outer (L : Layer) (starts : List NT) (z : List ℝ) :
+    ∀ (l : List (Abs × ℕ)) (d d' : AList NT ℝ), (∀ ai ∈ l, L.allStartsAbs[ai.2]? = some ai.1) →
+      StartFrom L starts z d →
+      l.foldl (startOuter L starts z) (some d) = some d' → StartFrom L starts z d' := by
+  intro l
+  induction l with
+  | nil => intro d d' _ hd h; simp at h; subst h; exact hd
+  | cons ai r ih =>
+    intro d d' hl hd h
+    simp only [List.foldl_cons] at h
+    cases hin : startOuter L starts z (some d) ai with
+    | none =>
+      rw [hin, foldl_none _ (by intro x; rfl)] at h
+      cases h
+    | some d1 =>
+      rw [hin] at h
+      have h1 := startRawU_inner L starts z ai.1 ai.2 (hl ai (by simp)) _ d d1 (fun _ h => h) hd hin
+      exact ih d1 d' (fun ai' h' => hl ai' (by simp [h'])) h1 h
+
+theorem startRawU_from (L : Layer) (starts : List NT) (z : List ℝ) (d : AList NT ℝ)
+    (h : startRawU L starts z = some d) : StartFrom L starts z d := by
+  unfold startRawU at h
+  refine startRawU_outer L starts z _ [] d ?_ ?_ h
+  · intro ai hai
+    have := List.mem_zipIdx_iff_getElem?.mp hai
+    simpa using this
+  · intro S t hl; simp [AList.lookup] at hl
+
+/-- the start tags are the softmax of the raw start table -/
+theorem startTagsU_closed (L : Layer) (starts : List NT) (x : List ℝ) (st : AList NT ℝ)
+    (h : startTagsU L starts x = some st) :
+    ∃ d, startRawU L starts (x.drop (L.outputSize - L.allStartsAbs.length)) = some d
+      ∧ AList.keys st = AList.keys d
+      ∧ ∀ S t, AList.lookup S d = some t → ∃ tag, AList.lookup S st = some tag
+          ∧ Real.exp tag = Real.exp t / (d.map (fun e => Real.exp e.2)).sum := by
+  rw [startTagsU_eq] at h
+  cases hd : startRawU L starts (x.drop (L.outputSize - L.allStartsAbs.length)) with
+  | none => rw [hd] at h; simp at h
+  | some d =>
+    rw [hd] at h
+    simp only [Option.some.injEq] at h
+    subst h
+    refine ⟨d, rfl, by simp [AList.keys, List.map_map, Function.comp_def], ?_⟩
+    intro S t hl
+    refine ⟨t + Real.log (1 / (d.map (fun e => Real.exp e.2)).sum), ?_, ?_⟩
+    · rw [lookup_map_val (fun t : ℝ => t + Real.log (1 / (d.map (fun e => Real.exp e.2)).sum)) S d, hl]; rfl
+    · have hpos : 0 < (d.map (fun e : NT × ℝ => Real.exp e.2)).sum :=
+        sum_pos_of_mem d (fun e => Real.exp e.2) (fun _ _ => Real.exp_nonneg _) (S, t)
+          (AList.lookup_some_mem hl) (Real.exp_pos _)
+      rw [Real.exp_add, Real.exp_log (by positivity)]
+      field_simp
+
+
+/-! ### small facts used by the property theorems -/
+
+theorem tagEntryDet_fst (L : Layer) (v ε : ℝ) (tvo : Bool) (x : List ℝ)
+    (e : NT × AList DP (List NT)) (t : NT × AList DP ℝ) (h : tagEntryDet L v ε tvo x e = some t) : t.1 = e.1 := by
+  unfold tagEntryDet at h
+  cases h1 : AList.lookup e.1 L.real2abs with
+  | none => simp [h1] at h
+  | some key =>
+    cases h2 : AList.lookup key L.abs2index with
+    | none => simp [h1, h2] at h
+    | some idx =>
+      obtain ⟨start, length, sym⟩ := idx
+      simp only [h1, h2] at h
+      cases h3 : primTags sym (slice x start length) (AList.keys e.2) [] with
+      | none => simp [h3] at h
+      | some prim => simp only [h3, Option.some.injEq] at h; rw [← h]
+
+theorem tagEntryU_fst (L : Layer) (v ε : ℝ) (tvo : Bool) (x : List ℝ)
+    (e : NT × AList DP (List Alt)) (t : NT × TagsU) (h : tagEntryU L v ε tvo x e = some t) : t.1 = e.1 := by
+  unfold tagEntryU at h
+  cases h1 : AList.lookup e.1 L.real2abs with
+  | none => simp [h1] at h
+  | some key =>
+    cases h2 : AList.lookup key L.abs2index with
+    | none => simp [h1, h2] at h
+    | some idx =>
+      obtain ⟨start, length, sym⟩ := idx
+      simp only [h1, h2] at h
+      cases h3 : primTagsU sym (slice x start length) e.2 [] with
+      | none => simp [h3] at h
+      | some prim => simp only [h3, Option.some.injEq] at h; rw [← h]
+
+/-- a constructed layer has consecutive slices, and the start tags lie after them -/
+theorem mkLayerU_consec {ρ : Type} (abstraction : NT → Abs) (iter : Abs → List DP → List DP)
+    (grammars : List (AList NT (AList DP ρ) × List NT)) :
+    Consec 0 (mkLayerU abstraction iter grammars).abs2index
+    ∧ ((mkLayerU abstraction iter grammars).abs2index.map (fun e => e.2.2.1)).sum
+        ≤ (mkLayerU abstraction iter grammars).outputSize - (mkLayerU abstraction iter grammars).allStartsAbs.length := by
+  rw [abs2index_eq]
+  refine ⟨sliceTable_consec iter _ 0, ?_⟩
+  rw [sliceTable_lens]
+  have := (mkLayerU_fields abstraction iter grammars).2.2.2
+  have h3 := (mkLayerU_fields abstraction iter grammars).2.2.1
+  rw [this, h3]
+  omega
+
 end PS.Predictor
